@@ -93,6 +93,6 @@ def outcome(fn):
         frames = traceback.extract_tb(e.__traceback__)
         inner = frames[-1].filename if frames else ""
         native = type(e).__name__ in ("ValueError", "RuntimeError", "OtherNativeError") and "/akshim/core.py" in inner
-        if inner.startswith(REPO) or native or "/site-packages/numpy" in inner or "/site-packages/pyarrow" in inner or "/site-packages/numba" in inner:
+        if inner.startswith(REPO) or native or "/site-packages/numpy" in inner or "/site-packages/pyarrow" in inner or inner.startswith("pyarrow/") or "/site-packages/numba" in inner:
             return (type(e).__name__, str(e))
         raise
